@@ -167,6 +167,11 @@ fn battery(root: &Path, label: &str, case: &dyn Fn() -> Value, out: &mut Out, t:
                     fail("committing a candidate", &p, out);
                     return None;
                 }
+                // "committing keeps working": the commit ends the word whether or not the save went through
+                if sess.ongoing().unwrap_or(false) {
+                    out.violation("keeps-working", "c10:commit-did-not-end-the-word".into(), case(), format!("ongoing_input_session() = false after committing a candidate of {w:?} with the user files in state: {label}"), "true".into());
+                    let _ = sess.finish();
+                }
             }
             Ok(None) => {}
             Err(p) => {
@@ -580,6 +585,14 @@ impl Prop for C10 {
                 if let Err(p) = r {
                     out.violation("keeps-working", format!("c10:panic@{}:failed-save", p.loc), case(), "a failed save is survived".into(), format!("panic at {}: {}", p.loc, p.msg));
                     continue;
+                }
+                // the commit ends the word although the save failed, and the next word starts from nothing
+                let still = sess.ongoing().unwrap_or(false);
+                let first = sess.key(kc('a'), 0, 0).ok().map(|s| if s.is_lonely() { s.get_lonely_suggestion().to_string() } else { s.get_auxiliary_text().to_string() });
+                let _ = sess.finish();
+                if still || first.as_deref() != Some("a") {
+                    out.violation("keeps-working", format!("c10:failed-save-left-the-word-open:{name}"), case(), "after the commit: no ongoing session, and the next key a starts a new word (auxiliary text \"a\")".into(),
+                                  format!("ongoing={still}, auxiliary text of the next key: {first:?}"));
                 }
                 // the same context keeps working
                 if let Err(p) = sess.type_text_protocol("ami").and_then(|_| sess.finish()) {
